@@ -175,6 +175,10 @@ class C13(Check):
                 n_off = 1 if oname == "none" else len(OFFSET_SETS[oname])
                 for j in range(n_off):
                     out.append(("roundtrip", ps, oname, j))
+                if oname == "three":
+                    # the SAME offsets / centres array objects reused for two calls and edited in place between them
+                    for order in (0, 1):
+                        out.append(("extract-reused-arrays", ps, order))
                 # one call per centre (the batched calls above hide anything that depends on the SET of centres)
                 for order in (0, 1):
                     for mode in ("constant", "nearest"):
@@ -182,7 +186,7 @@ class C13(Check):
         return out
 
     def is_query(self, op):
-        return op[0] in ("extract", "extract-list", "extract-frac", "roundtrip", "extract-single")
+        return op[0] in ("extract", "extract-list", "extract-frac", "roundtrip", "extract-single", "extract-reused-arrays")
 
     # ------------------------------------------------------------------ transitions
     def apply(self, st, op, verify=True):
@@ -437,6 +441,48 @@ class C13(Check):
         self.note("extract-frac:points-checked", n_checked)
         return []
 
+    def _apply_extract_reused_arrays(self, st, op, verify):
+        """two extractions through the resampling path (mode 'nearest') and the slicing path with the same offsets and
+        centres ARRAY OBJECTS, whose contents are replaced in place between the calls: the second result must be the one
+        of the new contents (anything memoised on the identity or shape of an argument would return the first)"""
+        from menpo.shape import PointCloud
+
+        _, ps, order = op
+        px = st["ref_px"]
+        if px.dtype == bool and order == 1:
+            return []
+        C, H, W = px.shape
+        img = st["img"]
+        offs = np.array(OFFSET_SETS["three"], dtype=float)
+        cents = np.array([[2.0, 3.0], [4.0, 4.0], [1.0, 6.0]])
+        pc = PointCloud(cents, copy=False)
+        second_offs = np.array([[1, 0], [0, 2], [-1, -1]], dtype=float)
+        second_cents = np.array([[3.0, 2.0], [5.0, 5.0], [2.0, 1.0]])
+        fails = []
+        self.note("extract-reused:o%d" % order)
+        lo_r, lo_c = -(ps[0] // 2), -(ps[1] // 2)
+
+        def ref(cs, os_):
+            out = np.zeros((len(cs), len(os_), C, ps[0], ps[1]), dtype=float)
+            for ci, c in enumerate(cs):
+                for oi, o in enumerate(os_):
+                    ys = np.clip(int(c[0] + o[0]) + lo_r + np.arange(ps[0]), 0, H - 1)
+                    xs = np.clip(int(c[1] + o[1]) + lo_c + np.arange(ps[1]), 0, W - 1)
+                    out[ci, oi] = px[:, ys][:, :, xs]
+            return out
+
+        for step in (0, 1):
+            got = np.asarray(img.extract_patches(pc, patch_shape=ps, sample_offsets=offs, order=order, mode="nearest"), dtype=float)
+            want = ref(pc.points, offs)
+            if verify:
+                tol = 1.0 if px.dtype == np.uint8 and order == 1 else 1e-9 * max(1.0, float(np.abs(want).max()))
+                if got.shape != want.shape or np.abs(got - want).max() > tol:
+                    fails.append(Failure("extract-reused-arrays", "pixels", "order %d patch=%s channels=%d: %s call with the same argument arrays (contents %s) differs from the clamped source pixels" % (order, ps, C, "second" if step else "first", "replaced in place" if step else "original")))
+                    break
+            offs[...] = second_offs
+            pc.points[...] = second_cents
+        return fails
+
     def _apply_extract_single(self, st, op, verify):
         """every integer centre in its own call, order 0/1 x mode constant/nearest: at integer centres and offsets all
         sample points are integer pixels, so every path must return exactly the (clamped / filled) source pixels"""
@@ -532,7 +578,7 @@ class C13(Check):
 
     # ------------------------------------------------------------------ reporting
     def vacuity(self, notes, stats):
-        need = ["crop:refused-expected", "crop:wholly-outside", "crop:inside", "crop:clipped", "crop_to_true_mask:inside", "extract:outside-filled", "extract:sample0-c1", "extract:sample0-c5", "extract:slice-c4", "roundtrip:c5", "extract-frac:points-checked", "extract-single:o0-nearest", "extract-single:o1-constant"]
+        need = ["crop:refused-expected", "crop:wholly-outside", "crop:inside", "crop:clipped", "crop_to_true_mask:inside", "extract:outside-filled", "extract:sample0-c1", "extract:sample0-c5", "extract:slice-c4", "roundtrip:c5", "extract-frac:points-checked", "extract-single:o0-nearest", "extract-single:o1-constant", "extract-reused:o0", "extract-reused:o1"]
         if True:
             need += ["crop_to_true_mask:refused-expected", "crop_to_true_mask:clipped"]
         return ["outcome %s never produced" % n for n in need if not notes.get(n)]
